@@ -104,6 +104,27 @@ def handle (op : String) (args : List String) : Option String :=
     let trig := ls.any (fun o => match o with | some r => isCmpPanic r | none => false) ||
                 ys.any (fun o => match o with | some (some r) => isCmpPanic r | _ => false)
     pure (s!"strict={strict} L:{shL} Y:{shY} same={same}" ++ (if trig then "\t!F-C12-1" else ""))
+  | "rel.saty", [spec, asg] => do
+    let a ← decAssign asg
+    let decAlt := fun (alt : String) => match alt.splitOn "/" with
+      | [n] => (decStr n).map fun n => (⟨n, none⟩ : RelY)
+      | [n, op, v] => do
+        let n ← decStr n
+        let vc ← decVC op
+        let vt ← decStr v
+        let ver ← Version.parse vt
+        pure ⟨n, some (vc, ver)⟩
+      | _ => none
+    let f : FieldY ← if spec == "-" then some [] else
+      (spec.splitOn ";").mapM fun (e : String) => if e == "~" then some [] else (e.splitOn "|").mapM decAlt
+    let lks : List (Option Lookup) :=
+      [some (Lookup.ofMap a), some (Lookup.ofFn (closureOf a)),
+       match a with | [b] => some (Lookup.ofPair b) | _ => none]
+    let ys := lks.map fun lk => lk.map fun lk => relationsSatYO DebVersion.compareO lk f
+    let shY := String.join (ys.map fun o => match o with | some r => showB r | none => "-")
+    let ye := showB (relationsSatYO DebVersion.compareO (Lookup.ofFn (closureOf a)) f)
+    let trig := ys.any (fun o => match o with | some r => isCmpPanic r | none => false)
+    pure (s!"Y:{shY}{ye}" ++ (if trig then "\t!F-C12-1" else ""))
   | "rel.satsv", [t, asg] => do
     let s ← decStr t
     let a ← decAssign asg
